@@ -387,6 +387,7 @@ def oracle(ctx, volume=1):
     ensemble_products(ctx)
     documented_thresholds(ctx)
     ensemble_shapes_and_thresholds(ctx)
+    product_readout_and_gates(ctx)
 
 
 def ensembles(ctx, volume=1):
@@ -751,6 +752,80 @@ def ensemble_shapes_and_thresholds(ctx):
             if bad:
                 ctx.violate("C16/ensemble-threshold", f"outcome probabilities {0.7 * q_:g}, {0.3 * q_:g} against the "
                             f"{'documented default' if not kw else 'requested'} threshold {thr:g}: ps = {ps.tolist()}", rep)
+
+
+def product_readout_and_gates(ctx):
+    """(a) the joint distribution of (ensemble outcome, local readout outcomes) for a PRODUCT readout POVM whose factors have
+    different outcome counts and are handed to tensor_product in either order: one variable per subsystem in subsystem order, row-major;
+    (b) a gate applied to an ensemble that contains exactly-zero-probability members: states and probabilities keep the same positions."""
+    import qobj
+    from quara.objects.operators import compose_qoperations, tensor_product
+    g = ctx.npgen(13)
+    # the three systems must share their ElementalSystem objects (CompositeSystem equality is by elemental-system identity)
+    e0, e1 = qobj.ElementalSystem(0, qobj.mb.get_normalized_pauli_basis()), qobj.ElementalSystem(1, qobj.mb.get_normalized_pauli_basis())
+    c0, c1, c01 = qobj.CompositeSystem([e0]), qobj.CompositeSystem([e1]), qobj.CompositeSystem([e0, e1])
+    I2 = np.eye(2, dtype=complex)
+    for t in range(2 if ctx.quick else 6):
+        rho = qobj.rand_density(g, 4)
+        st = qobj.State(c01, qobj.vec_of(c01, rho))
+        ks = qobj.rand_kraus(g, 2, 2)                       # a 2-outcome instrument on subsystem 0
+        Kmeas = [np.kron(k[0], I2) for k in ks]
+        M = qobj.MProcess(c01, [qobj.hs_of_kraus(c01, [K]) for K in Kmeas])
+        E0 = qobj.rand_povm_mats(g, 2, 2)
+        E1 = qobj.rand_povm_mats(g, 2, 3)
+        p0 = qobj.Povm(c0, [qobj.vec_of(c0, e) for e in E0])
+        p1 = qobj.Povm(c1, [qobj.vec_of(c1, e) for e in E1])
+        J = np.zeros((2, 2, 3))
+        for x in range(2):
+            r = Kmeas[x] @ rho @ Kmeas[x].conj().T
+            for b in range(2):
+                for a in range(3):
+                    J[x, b, a] = np.trace(np.kron(E0[b], E1[a]) @ r).real
+        rep = {"kind": "product-readout", "seed": ctx.seed, "t": t}
+        ctx.case(("product-readout", t), nontrivial=True); ctx.count("product readout cases")
+        try:
+            ens = compose_qoperations(M, st)
+        except Exception as e:  # noqa
+            ctx.violate("C16/product-readout/raises", f"{type(e).__name__}: {e}", rep); continue
+        for order, build in (("in-order", lambda: tensor_product(p0, p1)), ("out-of-order", lambda: tensor_product(p1, p0))):
+            try:
+                joint = compose_qoperations(build(), ens)
+                ok = tuple(joint.shape) == (2, 2, 3) and np.allclose(np.asarray(joint.ps).reshape(2, 2, 3), J, atol=1e-9)
+                if ok:
+                    for x, b, a in itertools.product(range(2), range(2), range(3)):
+                        ok = ok and abs(joint[(x, b, a)] - J[x, b, a]) < 1e-9
+                    ok = ok and np.allclose(joint.marginalize([0, 2]).ps, J.sum(axis=1).flatten(), atol=1e-9) \
+                        and np.allclose(joint.marginalize([1]).ps, J.sum(axis=(0, 2)), atol=1e-9)
+                what = f"reported shape {tuple(joint.shape)}"
+            except Exception as e:  # noqa
+                ok, what = False, f"{type(e).__name__}: {e}"
+            if not ok:
+                ctx.violate(f"C16/product-readout/{order}/layout", "joint distribution of (instrument outcome, readout on subsystem 0 with 2 outcomes, "
+                            f"readout on subsystem 1 with 3 outcomes) is not laid out as (2, 2, 3) in subsystem order, factors given {order}: {what}", rep)
+    # (b) gate after a projective measurement with impossible outcomes
+    c = qobj.csys("qubit")
+    P0, P1 = np.diag([1.0, 0.0]).astype(complex), np.diag([0.0, 1.0]).astype(complex)
+    Mz = qobj.MProcess(c, [qobj.hs_of_kraus(c, [P0]), qobj.hs_of_kraus(c, [P1])])
+    Hd = np.array([[1, 1], [1, -1]], dtype=complex) / np.sqrt(2)
+    G = qobj.Gate(c, qobj.hs_of_kraus(c, [Hd]))
+    for name, rho in (("|1><1|", P1), ("|0><0|", P0), ("generic", qobj.rand_density(g, 2))):
+        st = qobj.State(c, qobj.vec_of(c, rho))
+        rep = {"kind": "gate-after-measurement", "state": name}
+        ctx.case(("gate-after-measurement", name), nontrivial=True); ctx.count("gate after measurement cases")
+        for how, run in (("G∘(M∘ρ)", lambda: compose_qoperations(G, compose_qoperations(Mz, st))), ("compose(G, M, ρ)", lambda: compose_qoperations(G, Mz, st))):
+            try:
+                e = run()
+                ok = tuple(e.prob_dist.shape) == (2,)
+                for x, K in enumerate((P0, P1)):
+                    r = K @ rho @ K.conj().T
+                    p = np.trace(r).real
+                    ok = ok and abs(e.prob_dist[x] - p) < 1e-9
+                    want = Hd @ (r / p) @ Hd.conj().T if p > 1e-6 else np.zeros((2, 2))
+                    ok = ok and np.allclose(e.state(x).to_density_matrix(), want, atol=1e-8)
+            except Exception as ex:  # noqa
+                ok = False
+            if not ok:
+                ctx.violate("C16/gate-after-measurement/layout", f"{how} with ρ = {name}: states and probabilities of the ensemble no longer share their positions", rep)
 
 def search(ctx):
     oracle(ctx, volume=4)
